@@ -646,11 +646,12 @@ static Token *subst(Token *tok, MacroArg *args, bool is_objlike) {
     }
 
     // If __VA_ARG__ is empty, __VA_OPT__(x) is expanded to the
-    // empty token list. Otherwise, __VA_OPT__(x) is expanded to x.
+    // empty token list. Otherwise, __VA_OPT__(x) is expanded to x,
+    // in which parameters are substituted as in the rest of the body.
     if (equal(tok, "__VA_OPT__") && equal(tok->next, "(")) {
       MacroArg *arg = read_macro_arg_one(&tok, tok->next->next, true);
       if (has_varargs(args))
-        for (Token *t = arg->tok; t->kind != TK_EOF; t = t->next)
+        for (Token *t = subst(arg->tok, args, is_objlike); t->kind != TK_EOF; t = t->next)
           cur = cur->next = t;
       tok = skip(tok, ")");
       continue;
